@@ -4,26 +4,34 @@ import (
 	"github.com/dunglas/mercure"
 )
 
-// Retained returns the ids of every update in the history of t, in history
-// order, observed through the public API: a subscriber asking for "earliest".
-// Only valid while fewer than 1000 updates are retained.
-func Retained(t mercure.Transport) []string {
+// RetainedUpdates returns every update in the history of t, in history order, observed through the
+// public API: a subscriber asking for "earliest". Only valid while fewer than 1000 updates are retained.
+func RetainedUpdates(t mercure.Transport) []*mercure.Update {
 	s := mercure.NewLocalSubscriber(mercure.EarliestLastEventID, Logger, &mercure.TopicSelectorStore{})
 	s.SetTopics([]string{"*"}, []string{"*"})
 	if err := t.AddSubscriber(s); err != nil {
 		panic(err)
 	}
-	var ids []string
+	var us []*mercure.Update
 	for {
 		select {
 		case u, ok := <-s.Receive():
 			if !ok {
-				return ids
+				return us
 			}
-			ids = append(ids, u.ID)
+			us = append(us, u)
 		default:
 			_ = t.RemoveSubscriber(s)
-			return ids
+			return us
 		}
 	}
+}
+
+// Retained returns the ids of every update in the history of t, in history order.
+func Retained(t mercure.Transport) []string {
+	var ids []string
+	for _, u := range RetainedUpdates(t) {
+		ids = append(ids, u.ID)
+	}
+	return ids
 }
